@@ -133,7 +133,7 @@ fn apply(holder: &mut Obj, pl: &Plant, dangling: Option<u32>) -> Result<(), Stri
         (How::MapVal, d) => {
             let old = parent.get(key).cloned().ok_or_else(|| format!("{}: no such entry", pl.label))?;
             let Obj::Dict(mut m) = old else { return Err(format!("{}: entry is not a dictionary", pl.label)) };
-            if let Some(d) = d { m.push((DNG_KEY.as_bytes().to_vec(), Obj::Ref(d, 0))); }
+            if let Some(d) = d { m.insert(0, (DNG_KEY.as_bytes().to_vec(), Obj::Ref(d, 0))); }
             parent.set(key, Obj::Dict(m));
         }
     }
